@@ -179,7 +179,12 @@ def latest_cases(draw, tier):
     times = draw(st.lists(st.one_of(st.sampled_from(TIMES), st.integers(0, 10 ** 7)), min_size=1, max_size=5, unique=True))
     pick = draw(st.one_of(st.none(), st.sampled_from(times)))
     P = draw(st.sampled_from([1, 2, 3]))
-    return {"cfg": cfg, "times": times, "timepoint": pick, "P": P, "schedule": draw(gen.schedules(6))}
+    # in one case of three, additionally a request for a time of which there is no checkpoint
+    absent = None
+    if draw(st.integers(0, 2)) == 0:
+        absent = draw(st.one_of(st.sampled_from([x + 1 for x in times] + [max(times) + 10]), st.integers(0, 10 ** 7)).filter(
+            lambda x: x not in times))
+    return {"cfg": cfg, "times": times, "timepoint": pick, "absent": absent, "P": P, "schedule": draw(gen.schedules(6))}
 
 
 def _latest_rank(ctx, c, folder):
@@ -191,7 +196,15 @@ def _latest_rank(ctx, c, folder):
     first = float(np.asarray(g.getAllData()).flat[0])
     f2, _ = sim.setup_distrib(ctx.comm, c["cfg"], "v_parallel", None, save=False)
     f2.loadFromFile(folder, c["timepoint"])
-    return (t, first, float(np.asarray(f2.getAllData()).flat[0]))
+    absent = None
+    if c.get("absent") is not None:
+        # there is nothing to resume from at that time: the request cannot be met (the unchanged code refuses it)
+        try:
+            g3, _, t3 = setupFromFile(folder, comm=ctx.comm, allocateSaveMemory=False, layout="v_parallel", timepoint=c["absent"])
+            absent = ("returned", t3, float(np.asarray(g3.getAllData()).flat[0]))
+        except Exception as e:  # noqa
+            absent = ("refused", type(e).__name__)
+    return (t, first, float(np.asarray(f2.getAllData()).flat[0]), absent)
 
 
 def latest_pred(c):
@@ -209,7 +222,11 @@ def latest_pred(c):
                 ds.attrs.create("Layout", np.array(sim.STD_LAYOUTS["v_parallel"]), (4,), h5py.h5t.STD_I32BE)
         res, w = run_world(c["P"], _latest_rank, (c, folder), schedule=c["schedule"], key="C18:latest")
     want = c["timepoint"] if c["timepoint"] is not None else max(c["times"])
-    for rk, (t, first, first2) in enumerate(res):
+    for rk, (t, first, first2, absent) in enumerate(res):
+        if absent is not None and absent[0] == "returned":
+            raise Violation("C18:latest:absent-checkpoint", "checkpoints %s, timepoint=%r requested although grid_%06d.h5 does not "
+                            "exist: setupFromFile returned a grid labelled t=%r (first value %r) instead of refusing"
+                            % (sorted(c["times"]), c["absent"], c["absent"], absent[1], absent[2]))
         if first != want + 0.5:
             raise Violation("C18:latest:setup-file", "checkpoints %s, timepoint=%r: setupFromFile loaded the file of t=%r, expected t=%r"
                             % (sorted(c["times"]), c["timepoint"], first - 0.5, want))
@@ -221,7 +238,8 @@ def latest_pred(c):
                             % (sorted(c["times"]), c["timepoint"], first2 - 0.5, want))
     digits = {len(str(t)) for t in c["times"]}
     return {"nontrivial": len(digits) >= 2, "labels": ["timepoint" if c["timepoint"] is not None else "latest",
-                                                       ">=1e6" if max(c["times"]) >= 10 ** 6 else "<1e6"], "evals": 2}
+                                                       ">=1e6" if max(c["times"]) >= 10 ** 6 else "<1e6"] +
+            (["absent-request"] if c.get("absent") is not None else []), "evals": 2 + (c.get("absent") is not None)}
 
 
 # ----------------------------------------------------------------------------------------------
